@@ -147,6 +147,35 @@ func init() {
 		Variant{Prop: "C06", Name: "flush-pointer-write-failure-swallowed", File: st, Expect: "C06.a",
 			Old: "\tif err := writeHeaderHashTo(ctx, batch, tail, tailKey); err != nil {\n\t\treturn err\n\t}", New: "\tif err := writeHeaderHashTo(ctx, batch, tail, tailKey); err != nil {\n\t\tlog.Errorw(\"tail pointer\", \"err\", err)\n\t}"},
 
+		// C08.c: the dispatcher/worker protocol of the parallel deletion
+		Variant{Prop: "C08", Name: "stop-channel-closed-by-a-successful-worker", File: "store/store_delete.go", Expect: "C08.c",
+			Old: "\t\t\tif last.err != nil {\n\t\t\t\tcloseErrChOnce.Do(", New: "\t\t\tif last.err == nil {\n\t\t\t\tcloseErrChOnce.Do("},
+		Variant{Prop: "C08", Name: "worker-continues-after-a-failed-step", File: "store/store_delete.go", Expect: "C08.c",
+			Old: "\t\t\t} else if last.err != nil {\n\t\t\t\tbreak\n\t\t\t}\n\t\t}\n\t}\n\n\tvar wg sync.WaitGroup", New: "\t\t\t}\n\t\t}\n\t}\n\n\tvar wg sync.WaitGroup"},
+		Variant{Prop: "C08", Name: "results-evaluated-before-workers-finished", File: "store/store_delete.go", Expect: "C08.c",
+			Old: "\t// await all workers to finish\n\twg.Wait()\n", New: "\t// await all workers to finish\n"},
+		Variant{Prop: "C08", Name: "results-not-ordered-by-height", File: "store/store_delete.go", Expect: "C08.c",
+			Old: "\tslices.SortFunc(results, func(a, b result) int {\n\t\treturn int(a.height - b.height) //nolint:gosec\n\t})\n", New: "\t_ = slices.Clone(results)\n"},
+		Variant{Prop: "C08", Name: "failed-worker-result-ignored", File: "store/store_delete.go", Expect: "C08.c",
+			Old: "\t\tif result.err != nil {\n\t\t\t// return the error immediately", New: "\t\tif result.err != nil && result.missing > 0 {\n\t\t\t// return the error immediately"},
+		Variant{Prop: "C08", Name: "parallel-progress-is-the-minimum", File: "store/store_delete.go", Expect: "C08.c",
+			Old: "\t\tif result.height > highest {", New: "\t\tif result.height < highest {"},
+		Variant{Prop: "C08", Name: "commit-error-recorded-only-on-success", File: "store/store_delete.go", Expect: "C08.c",
+			Old: "\t\t\tif err := done(); err != nil {\n\t\t\t\tlast.err = errors.Join(", New: "\t\t\tif err := done(); err == nil {\n\t\t\t\tlast.err = errors.Join("},
+		Variant{Prop: "C08", Name: "benign-parallel-progress-by-max-builtin", File: "store/store_delete.go",
+			Old: "\t\tif result.height > highest {\n\t\t\thighest = result.height\n\t\t}", New: "\t\thighest = max(highest, result.height)"},
+
+		// C10: a stored range is served; bodies
+		Variant{Prop: "C10", Name: "stored-range-refused", File: "p2p/server.go", Expect: "C10.b",
+			Old: "\tif !serv.store.HasAt(ctx, to-1) {", New: "\tif serv.store.HasAt(ctx, to-1) {"},
+		Variant{Prop: "C10", Name: "range-starting-at-the-head-refused", File: "p2p/server.go", Expect: "C10.b",
+			Old: "\t\tif head.Height() < from {", New: "\t\tif head.Height() <= from {"},
+		Variant{Prop: "C10", Name: "zero-header-marshalled-real-header-sent-empty", File: "p2p/server.go", Expect: "C10.f",
+			Old: "\t\tif !h.IsZero() {\n\t\t\tbin, err = h.MarshalBinary()", New: "\t\tif h.IsZero() {\n\t\t\tbin, err = h.MarshalBinary()"},
+		Variant{Prop: "C10", Name: "failed-marshalling-still-written", File: "p2p/server.go", Expect: "C10.f",
+			Old: "\t\t\tif err != nil {\n\t\t\t\tlog.Warnw(\"server: marshaling header to proto\", \"height\", h.Height, \"err\", err)\n\t\t\t\tstream.Reset() //nolint:errcheck\n\t\t\t\treturn\n\t\t\t}",
+			New: "\t\t\tif err != nil {\n\t\t\t\tlog.Warnw(\"server: marshaling header to proto\", \"height\", h.Height, \"err\", err)\n\t\t\t}"},
+
 		Variant{Prop: "C08", Name: "benign-batch-commit-via-local", File: st,
 			Old: "\treturn contextds.WithWrite(ctx, batch), func() error {\n\t\treturn batch.Commit(ctx)\n\t}",
 			New: "\treturn contextds.WithWrite(ctx, batch), func() error {\n\t\terr := batch.Commit(ctx)\n\t\treturn err\n\t}"},
